@@ -422,6 +422,11 @@ def _get_comp_cls_media(comp_cls: Type["Component"]) -> Any:
         if curr_cls in media_cache:
             continue
 
+        # Same as in `_get_comp_cls_attr()`, the (relative) paths in `Media` are resolved before they are used
+        comp_media: Optional[ComponentMedia] = getattr(curr_cls, "_component_media", None)
+        if comp_media is not None and not comp_media.resolved:
+            _resolve_media(curr_cls, comp_media)
+
         # Prepare base classes
         media_input = getattr(curr_cls, "Media", None)
         media_extend = getattr(media_input, "extend", True)
